@@ -27,6 +27,7 @@ type SpecEnv struct {
 	typeScopePos   token.Pos
 	typeScopeNamed *types.Named
 	extSig         *types.Signature
+	typeAlias      map[string]types.Type
 	topOld         bool // old(e): parameters denote their entry values
 	pol            int  // +1: positive position of a goal (universal quantifiers are skolemised), -1 negative, 0 off
 }
@@ -604,14 +605,14 @@ func (env *SpecEnv) call(x *SCall) Val {
 					k, rs, rgo = ck.closed, sBool, types.Typ[types.Bool]
 				}
 				return Val{T: ex.chGet(env.st, k, c.T), S: rs, Go: rgo}
-			case "hint":
+			case "hint", "hint2", "hint3":
 				// instantiation hint: contributes the index-witness fact (ix e) when the enclosing
 				// formula is assumed, and is simply true when it has to be proved
 				v := env.nopol().eval(x.Args[0])
 				if env.pol > 0 || v.S.Kind != KInt {
 					return Val{T: "true", S: sBool}
 				}
-				hn := sym("hint")
+				hn := sym(id.Name)
 				ex.w.declFun(hn, []*Sort{sInt}, sBool)
 				return Val{T: "(" + hn + " " + v.T + ")", S: sBool}
 			case "row":
@@ -691,6 +692,15 @@ func (env *SpecEnv) call(x *SCall) Val {
 					env.fail("has() needs a map")
 				}
 				return ex.mapHasPure(env.st, m, k, mt)
+			case "domof":
+				m := env.nopol().eval(x.Args[0])
+				mt, ok := goMapType(m.Go)
+				if !ok {
+					env.fail("domof() needs a map")
+				}
+				ki := ex.mapKeys(env.st, mt)
+				ks, _, _ := ex.mapSorts(mt)
+				return Val{T: sSel(env.st.heap[ki[0].key], m.T), S: ex.w.setSort(ks)}
 			case "dyntype":
 				v := env.eval(x.Args[0])
 				return Val{T: sApp(ex.dynTypeFn(), v.T), S: ex.w.unSort("TypeTag")}
@@ -853,7 +863,13 @@ func (env *SpecEnv) ghostField(t types.Type, name string) (*GhostField, string, 
 		// current scope (so that a type parameter T means the T of the function being verified)
 		for _, ps := range env.ex.prog.AllSpecs {
 			if gf, ok := ps.Ghosts["func."+name]; ok {
-				gty, gs := env.resolveType(gf.Type)
+				// T in the ghost type means the first parameter type of the function value
+				// (for internal/heap's indexChanged func(x T, i int): the element type)
+				c := env.child()
+				if sg, ok := t.Underlying().(*types.Signature); ok && sg.Params().Len() > 0 {
+					c.typeAlias = map[string]types.Type{"T": sg.Params().At(0).Type()}
+				}
+				gty, gs := c.resolveType(gf.Type)
 				return gf, "g:func." + name + ":" + gs.Name, gs, gty
 			}
 		}
@@ -933,6 +949,9 @@ func (env *SpecEnv) resolveType(s string) (types.Type, *Sort) {
 func (env *SpecEnv) tryResolveType(s string) (types.Type, *Sort) {
 	ex := env.ex
 	s = strings.TrimSpace(s)
+	if ty, ok := env.typeAlias[s]; ok {
+		return ty, ex.w.sortOf(ty)
+	}
 	switch s {
 	case "int":
 		return types.Typ[types.Int], sInt
@@ -1260,7 +1279,7 @@ func (ex *Exec) frameCond(pre, post *State, key string, s *Sort, targets []modTa
 		}
 	}
 	// everything except the targets and the objects allocated in between keeps its value
-	guard := sSel(allocA, "r")
+	guard := "true" // nothing was allocated in between: everything but the targets is unchanged
 	if allocA != allocB {
 		guard = sOr(sSel(allocA, "r"), sNot(sSel(allocB, "r")))
 	}
@@ -1313,6 +1332,7 @@ func (ex *Exec) havocHeap(st *State, pre *State, ws *writeSet, targets []modTarg
 		n := ex.heapHavoc(st, key, s)
 		if ax := ex.heapTyping(n, key, s, ex.allocArr(st), ex.arrAllocArr(st)); ax != "" {
 			st.assume(ax)
+			ex.w.weak[ax] = true
 		}
 		if useTop {
 			// inside a loop: locations outside the method's modifies clause keep their entry value
